@@ -536,7 +536,7 @@ func (k *c04ctx) ruleR1() {
 			}
 		}
 	}
-	c.Floor("C04.R1:bounded", nUpper, 8)
+	c.Floor("C04.R1:bounded", nUpper, 5)
 	c.Floor("C04.R1:nonzero", nNonzero, 4)
 }
 
@@ -981,7 +981,7 @@ func (k *c04ctx) ruleReaders() {
 			}
 		}
 	}
-	c.Floor("C04.R2:ops", nOps, 9)
+	c.Floor("C04.R2:ops", nOps, 5)
 	c.Floor("C04.R4:reader-sequences", nSeq, 2)
 }
 
